@@ -587,9 +587,13 @@ pub fn run(tier: &Tier, args: &[String]) -> i32 {
                 let mut c = cfg(24, 8, 12, 2);
                 c.timing.timing_aspa_reissue_weeks_before = 4;
                 c.timing.timing_bgpsec_reissue_weeks_before = 6;
+                // (thresholds 2/2: the four authorisations are published as
+                // aggregated ROAs, one per AS)
+                c.roa_aggregate_threshold = 2;
+                c.roa_deaggregate_threshold = 2;
                 let mut w = c01::build_w3(c)?;
                 for op in [
-                    Op::Roa { ca: "ca".into(), add: vec![c01::ROA_A.into()], del: vec![] },
+                    Op::Roa { ca: "ca".into(), add: vec![c01::ROA_A.into(), c01::ROA_B.into(), c01::ROA_C.into(), c01::ROA_D.into()], del: vec![] },
                     Op::AspaSet { ca: "ca".into(), customer: 65000, providers: vec![65001] },
                     Op::BgpsecAdd { ca: "ca".into(), asn: 65000, csr: 0 },
                 ] {
@@ -608,7 +612,7 @@ pub fn run(tier: &Tier, args: &[String]) -> i32 {
                 // the reference knows what the build configured
                 let done = crate::ops::OpOutcome { ok: true, err: None, tasks: vec![], fatal: None };
                 for op in [
-                    Op::Roa { ca: "ca".into(), add: vec![c01::ROA_A.into()], del: vec![] },
+                    Op::Roa { ca: "ca".into(), add: vec![c01::ROA_A.into(), c01::ROA_B.into(), c01::ROA_C.into(), c01::ROA_D.into()], del: vec![] },
                     Op::AspaSet { ca: "ca".into(), customer: 65000, providers: vec![65001] },
                     Op::BgpsecAdd { ca: "ca".into(), asn: 65000, csr: 0 },
                 ] {
